@@ -184,12 +184,104 @@ fn run_reused(rep: &Report) {
     rep.scope_done(json!({"scope": "one reused holder per credential: S(3,3) x all strategies x 2 formats, every (coarse) selection in turn with key binding alternately on/off", "credentials": items.len(), "evaluations": rep.evals() - before}));
 }
 
+/// Credentials from another issuer implementation: the signed payload and the disclosures are JSON *texts* laid
+/// out differently from what serde_json writes (pretty-printed, other member order, \u escapes, numbers in
+/// spellings that do not survive a parse / re-serialize cycle). Returns (label, jwt, disclosures).
+pub fn foreign_layout_creds() -> Vec<(String, String, Vec<String>)> {
+    use crate::codec::{b64e, digest};
+    let mut out = vec![];
+    let floats = ["985.6906946328695", "1E2", "1.0", "100", "1e-7", "0.30000000000000004", "9007199254740993", "-0.0", "1.7976931348623157e308", "1.10", "0.1e1", "12345678901234567890"];
+    for (fi, f) in floats.iter().enumerate() {
+        let d1 = b64e(format!("[\"c2FsdC1mb3JlaWduLTAwMDE\", \"a\", {f}]").as_bytes());
+        let d2 = b64e(format!("[ \"c2FsdC1mb3JlaWduLTAwMDI\" ,\"b\",{{ \"c\" : {f}, \"\\u0064\": [ {f} ] }}]").as_bytes());
+        let (g1, g2) = (digest(&d1), digest(&d2));
+        let layouts = [
+            format!("{{\"iss\":\"{}\",\"exp\":{},\"_sd_alg\":\"sha-256\",\"_sd\":[\"{g1}\",\"{g2}\"],\"v\":{f},\"w\":[{f},{{\"x\":{f}}}]}}", gen::ISS, gen::EXP),
+            format!("{{\n  \"v\": {f},\n  \"_sd\": [\n    \"{g1}\",\n    \"{g2}\"\n  ],\n  \"exp\": {},\n  \"w\": [ {f}, {{ \"x\": {f} }} ],\n  \"iss\": \"{}\",\n  \"_sd_alg\": \"sha-256\"\n}}\n", gen::EXP, gen::ISS),
+            format!("{{\"\\u0069ss\":\"https:\\/\\/i.example\",\"exp\":{}.0,\"_sd_alg\":\"sha\\u002d256\",\"_sd\":[\"{g1}\",\"{g2}\"],\"v\":{f},\"w\":[{f},{{\"x\":{f}}}]}}", gen::EXP),
+        ];
+        for (li, text) in layouts.iter().enumerate() {
+            let jwt = crate::tokens::hmac_sign(&b64e(b"{\"alg\":\"HS256\"}"), &b64e(text.as_bytes()), crate::keys::HS_SECRET);
+            out.push((format!("float{fi}:layout{li}"), jwt, vec![d1.clone(), d2.clone()]));
+        }
+    }
+    out
+}
+
+fn foreign_layout_case(label: &str, jwt: &str, discs: &[String], l: &mut Local) {
+    use crate::codec::{self, Parts};
+    let payload: Option<Value> = jwt.split('.').nth(1).and_then(codec::decode_json);
+    for fmt in codec::FMTS {
+        let sd = Parts { jwt: jwt.to_string(), disclosures: discs.to_vec(), kb: None }.serialize(fmt);
+        for (si, sel) in [json!({}), json!({"a": true}), json!({"b": true}), json!({"a": true, "b": {"c": true}})].iter().enumerate() {
+            l.evals += 1;
+            let mk = |class: &str, site: &str, detail: String| Violation::new("present", class, site, "foreign_layout", detail, json!({"kind": "c06_foreign_layout", "label": label, "fmt": fmt.name(), "selection": sel}));
+            let want: Vec<String> = match si {
+                0 => vec![],
+                1 => vec![discs[0].clone()],
+                2 => vec![discs[1].clone()],
+                _ => discs.to_vec(),
+            };
+            let out = match drive::holder_new(&sd, fmt) {
+                Out::Ok(mut h) => drive::present(&mut h, sel.as_object().unwrap(), &drive::KbArgs::none()),
+                o => o.map(|_| String::new()),
+            };
+            let Some(pp) = out.as_ok().and_then(|p| codec::parse(p, fmt)) else {
+                // an exp written as a float (layout 2) may be refused by a strict reader; anything else must work
+                if label.ends_with("layout2") && !out.is_panic() {
+                    l.outcome("foreign_layout_refused_where_spelling_is_unusual");
+                } else {
+                    l.violation(mk(if out.is_panic() { "panic" } else { "err_where_ok_required" }, "c06_foreign_layout_present", out.describe()));
+                }
+                continue;
+            };
+            if pp.jwt != jwt {
+                l.violation(mk("wrong_jwt", "c06_jwt_not_identical", format!("the issuer-signed JWT came out as {} ; it went in as {jwt}", pp.jwt)));
+            }
+            let mut got = pp.disclosures.clone();
+            got.sort();
+            let mut w = want.clone();
+            w.sort();
+            if got != w {
+                l.violation(mk("wrong_disclosures", "c06_disclosure_multiset", format!("{} disclosures presented, {} expected", got.len(), w.len())));
+            }
+            // and the verifier returns what the specification's algorithm returns for this payload and these disclosures
+            if let (Some(p), Some(pres)) = (&payload, out.as_ok()) {
+                let v = drive::verify(pres, crate::keys::issuer_dec(Alg::HS256, 0), None, None, fmt);
+                match (crate::refmodel::spec_verify(p, &want), &v) {
+                    (crate::refmodel::Spec::Claims(c), Out::Ok(got)) if &c == got => {
+                        l.outcome("foreign_layout_ok");
+                        l.nontrivial += 1;
+                    }
+                    (_, Out::Err { .. }) if label.ends_with("layout2") => l.outcome("foreign_layout_refused_where_spelling_is_unusual"),
+                    (spec, v) => l.violation(Violation::new("verify", if v.is_panic() { "panic" } else { "wrong_claims" }, "c06_foreign_layout_verify", "foreign_layout", format!("verifier: {} ; specification: {spec:?}", v.describe()), json!({"kind": "c06_foreign_layout", "label": label, "fmt": fmt.name(), "selection": sel}))),
+                }
+            }
+        }
+    }
+}
+
+fn run_foreign_layout(rep: &Report) {
+    let creds = foreign_layout_creds();
+    par_for(rep, creds.len(), |i, l| foreign_layout_case(&creds[i].0, &creds[i].1, &creds[i].2, l));
+    rep.scope_done(json!({"scope": "credentials laid out by another implementation: 12 number spellings x 3 payload layouts (compact, pretty-printed in another member order, \\u escapes) x 2 formats x 4 selections: issuer-signed JWT byte-identical, disclosures as selected, verified claims as the specification's algorithm gives", "credentials": creds.len()}));
+}
+
+pub fn replay_foreign_layout(case: &Value) -> Vec<Violation> {
+    let mut l = Local::default();
+    if let Some((label, jwt, discs)) = foreign_layout_creds().into_iter().find(|c| Some(c.0.as_str()) == case["label"].as_str()) {
+        foreign_layout_case(&label, &jwt, &discs, &mut l);
+    }
+    l.violations()
+}
+
 pub fn run(rep: &Report) {
     rep.set_rule("strong form: (claim tree, strategy, configuration, type-consistent selection) enumerated completely per scope, presentation decoded by the harness codec and compared with the expected disclosure multiset; weak form: every selector JSON up to a node bound; non-trivial = presented hidden set a proper non-empty subset of H; distinct by (claims, strategy, configuration, D)");
     rep.assume("jsonwebtoken/ring/serde_json/base64/sha2 are correct");
     super::c01::scopes(rep, Checks { c06: true, ..Default::default() });
     run_weak(rep, if rep.quick() { 3 } else { 4 });
     run_reused(rep);
+    run_foreign_layout(rep);
 }
 
 pub fn replay_reused(case: &Value) -> Vec<Violation> {
